@@ -551,7 +551,6 @@ func (p *Prog) errProp(fn *ssa.Function, call *ssa.Call) errPropResult {
 	return errPropResult{OK: true}
 }
 
-
 func resultsString(r *ssa.Return) string {
 	var s []string
 	for _, x := range r.Results {
